@@ -17,3 +17,56 @@ func init() {
 		},
 	})
 }
+
+func init() {
+	register(propSpec{
+		ID: "C09",
+		Explanation: "The iterator protocol is decided as tables extracted from the source of the generator type returned by seq.Start: MoveNext and Send are abstractly evaluated for every combination of started in {false,true}, pending resumption nil/non-nil and nil/non-nil result of each resumption, Current and Result for both; the calls made (which resumption, with which argument), the final contents of the generator's fields and the returned values are compared with the reference protocol of the property (exhaustion absorbing with no generator code run, Current a pure read of the value of the latest successful advance and zero after exhaustion, Send auto-start and value passing, Result recorded by Start's terminal continuation). Every clause of C09 is a row of these tables.",
+		Trusted: []string{"Go semantics of closures and calls", "go/ssa construction (x/tools v0.29.0)"},
+		Run: func(c *Ctx) {
+			s := newSeqRT(c)
+			c.guard("SEQ.GEN", s.ruleGen)
+			c.guard("SEQ.START", func() { s.ruleStart() })
+			c.guard("SEQ.TAKE", s.ruleSuspend)
+		},
+	})
+}
+
+func init() {
+	register(propSpec{
+		ID: "C17",
+		Explanation: "Decides the structural cause of per-iteration stack growth, not a numeric bound: For/While/Loop are abstractly evaluated with a body that completes synchronously (Normal and Continue) for several iterations, before and after a resumption; the height of the abstract activation stack at successive calls of the body must not increase (abstract stack-height analysis over the K1 state graph). Plus: no cycle among statically resolved calls in package seq. Growth that is linear in term size or delegation depth is not a violation.",
+		Trusted: []string{"stack depth contributed by user thunks is bounded by term size", "go/ssa construction"},
+		Run: func(c *Ctx) {
+			s := newSeqRT(c)
+			c.guard("SEQ.STACK.HEIGHT", s.ruleStack)
+			c.guard("SEQ.STACK.REC", s.ruleNoStaticRecursion)
+		},
+	})
+	register(propSpec{
+		ID: "C18",
+		Explanation: "Decides the mechanism the property rests on: (SEQ.SYNC) package seq contains no go/defer/recover/select/send and no sync/time/runtime call, so a panic raised by a step can only unwind through the advancing call; (SEQ.CHAIN) MoveNext and Send call the pending resumption synchronously and overwrite current/next only after it returned, so values delivered earlier are untouched when it panics; (SEQ.TAKE/SEQ.START/SEQ.LAZY) a resumption runs the thunk inside the call and constructors run nothing; (RW.NOASYNC) the rewriter never emits go/defer/select/recover into generated code. All clauses are structural.",
+		Trusted: []string{"Go panic propagation semantics", "go/ssa construction"},
+		Run: func(c *Ctx) {
+			s := newSeqRT(c)
+			c.guard("SEQ.SYNC", s.ruleSync)
+			c.guard("SEQ.CHAIN", s.ruleChain)
+			c.guard("SEQ.TAKE", s.ruleSuspend)
+			c.guard("SEQ.START", func() { s.ruleStart() })
+			c.guard("SEQ.DELAY", s.ruleDelay)
+			c.guard("RW.NOASYNC", func() { ruleRwNoAsync(c) })
+		},
+	})
+	register(propSpec{
+		ID: "C14",
+		Explanation: "Decides the structural cause of independence (no state reachable from two iterators through the runtime or through generated code): (SEQ.STATE) package seq has no package-level variable touched by runtime code, and no closure created by a Seq constructor assigns a variable that lives outside the returned Seq (state is allocated per run); (SEQ.START) every Start call allocates its own generator and coroutine state; (SEQ.FOR second-run) a second run of the same loop Seq starts from scratch; (RW.NODECL) the rewriter never introduces declarations or rewrites a file's declaration list. Data races in user code are out of scope.",
+		Trusted: []string{"Go memory model for unshared data", "go/ssa construction"},
+		Run: func(c *Ctx) {
+			s := newSeqRT(c)
+			c.guard("SEQ.STATE", s.ruleState)
+			c.guard("SEQ.START", func() { s.ruleStart() })
+			c.guard("SEQ.FOR", s.ruleFor)
+			c.guard("RW.NODECL", func() { ruleRwNoDecl(c) })
+		},
+	})
+}
